@@ -101,7 +101,10 @@ def run(res, tier, rng, table_diffs=()):
            ("als a { 1 } anders als b { 2 } anders { 3 }", "als a { 1 } anders { als b { 2 } anders { 3 } }"),
            ("1 + 2 * 3", "1 + (2 * 3)"), ("1 - 2 - 3", "(1 - 2) - 3"), ("1 < 2 == ja", "(1 < 2) == ja"),
            ("a = 1 || nee", "a = (1 || nee)"), ("f(1) + a[0] * 2", "(f(1)) + ((a[0]) * 2)"),
-           ("1 + 2 // c\n * 3", "1+2*3"), ("stel x = 1; x", "stel x = 1 x"), ("f(1, 2)", "f(1 2)")]
+           ("1 + 2 // c\n * 3", "1+2*3"), ("stel x = 1; x", "stel x = 1 x"), ("f(1, 2)", "f(1 2)"),
+           # whatever a comment contains or ends in (backslashes, quotes, braces, `//`), it ends at its line end
+           ("1 // c:\\\n + 2", "1 + 2"), ("1 // c:\\\\\n + 2", "1 + 2"), ("1 // \\\\\\\n + 2", "1 + 2"), ("stel x = 1 // p\\\nx = 2\nx", "stel x = 1; x = 2; x"),
+           ("1 // \"open\n + 2", "1 + 2"), ("1 // { ( [\n + 2", "1 + 2"), ("1 // a // b\\\n + 2 // c\\", "1 + 2"), ("a //\\\n(b)", "a(b)")]
     ans = core.impl(["parse " + hx(a) for a, _ in eqs] + ["parse " + hx(b) for _, b in eqs])
     for k, (a, b) in enumerate(eqs):
         res.seen("E" + a)
